@@ -59,7 +59,7 @@ REACH = ["_tree:Tree.calc_node_ages", "_tree:Tree.node_ages", "_tree:Tree.intern
          "treemeasure:B1", "treemeasure:colless_tree_imbalance", "treemeasure:pybus_harvey_gamma", "treemeasure:N_bar",
          "treemeasure:sackin_index", "treemeasure:treeness", "treemeasure:node_ages", "treemeasure:node_depths",
          "treemeasure:coalescence_ages", "treemeasure:divergence_times"]
-MIN_EVENTS = {"ages-compared": (15000, 110000), "threshold-accept-judged": (11000, 65000), "threshold-reject-judged": (6000, 36000),
+MIN_EVENTS = {"case-with-taxa-on-no-tip": (2500, 9000), "ages-compared": (15000, 110000), "threshold-accept-judged": (11000, 65000), "threshold-reject-judged": (6000, 36000),
               "statistic-compared": (140000, 850000), "lineages-compared": (50000, 420000), "forcing-compared": (3500, 20000),
               "tree-with-root-edge-length": (900, 6000),
               # added with the audit: object histories, several deviations, routes x options, returned collections
@@ -92,9 +92,15 @@ def cases(tier, seed):
         yield {"kind": "stats", "i": i, "seed": seed}
 
 
+# taxa of the namespace that are on no tip (as after pruning, or in a shared namespace): ages and statistics are functions of
+# the tree, never of its namespace.  Drawn once per case from a separate generator (seeded change C17d: a normaliser taken
+# from len(tree.taxon_namespace)).
+_EXTRA_TAXA = []
+
+
 def fresh(spec, rooted=True):
     import dendropy
-    ns = dendropy.TaxonNamespace(sorted(ref.leaf_taxa(spec)))
+    ns = dendropy.TaxonNamespace(sorted(list(ref.leaf_taxa(spec)) + list(_EXTRA_TAXA)))
     return bridge.build_tree(spec, ns, rooted)
 
 
@@ -124,6 +130,11 @@ def install_counters(ctx, hooks):
 
 def run_case(case, ctx):
     rng = random.Random("%s/%s" % (case["seed"], sorted((k, str(v)) for k, v in case.items())))
+    erng = random.Random("extra-taxa/%s/%s" % (case["seed"], sorted((k, str(v)) for k, v in case.items())))
+    del _EXTRA_TAXA[:]
+    if erng.random() < 0.3:
+        _EXTRA_TAXA.extend(erng.sample(["A0", "A1", "zz7", "zz8", "zz9", "M5"], erng.randint(1, 5)))
+        ctx.ev("case-with-taxa-on-no-tip")
     with Hooks(ctx) as hooks:
         install_counters(ctx, hooks)
         if case["kind"] == "ultrametric":
